@@ -790,6 +790,7 @@ func runC20(c *Ctx) {
 	} else {
 		checkBroadcastErr(c, "Z5", bcast)
 	}
+	checkStatusIsFailureWhereDataIsExpected(c, "Z6")
 }
 
 // clientAxioms adds: data returned by clientConn.sendPacket with a nil error, and result.data of a
@@ -939,4 +940,135 @@ func checkStickyErrorReported(c *Ctx, rule string) {
 		c.check(bad == "", rule, fnName(fn)+" reports the buffer's error", p.Pos(fn.Pos()), "ends with buf.Err (or a tested error)", "the decoder returns a constant nil after consuming from the Buffer: a packet cut inside those fields is reported as decoded, with zero values")
 	}
 	c.check(n >= 10, rule, "filexfer decoders using the sticky error", "?", fmt.Sprintf("%d decoders", n), fmt.Sprintf("only %d decoders found", n))
+}
+
+// errNeverNil: can the error value v (selected in block b, entered from pred) be nil?  false = may be nil.
+func (p *Program) errNeverNil(v ssa.Value, b, pred *ssa.BasicBlock, depth int) bool {
+	if depth > 4 {
+		return false
+	}
+	switch x := v.(type) {
+	case *ssa.Const:
+		return x.Value != nil
+	case *ssa.MakeInterface:
+		return true
+	case *ssa.Global:
+		return true
+	case *ssa.UnOp:
+		if g, ok := x.X.(*ssa.Global); ok && x.Op == token.MUL {
+			return strings.HasPrefix(g.Name(), "err") || strings.HasPrefix(g.Name(), "Err")
+		}
+	}
+	// tested non-nil on the way here
+	for cv, truth := range edgeConds(b, pred) {
+		if bo, ok := cv.(*ssa.BinOp); ok && isNilConst(bo.Y) && bo.X == v {
+			if (bo.Op == token.NEQ && truth) || (bo.Op == token.EQL && !truth) {
+				return true
+			}
+		}
+	}
+	var call *ssa.Call
+	switch x := v.(type) {
+	case *ssa.Call:
+		call = x
+	case *ssa.Extract:
+		call, _ = x.Tuple.(*ssa.Call)
+	}
+	if call == nil {
+		return false
+	}
+	if callIs(&call.Call, "errors.New") || callIs(&call.Call, "fmt.Errorf") {
+		return true
+	}
+	f := call.Call.StaticCallee()
+	if f == nil || f.Blocks == nil || !inModule(f) {
+		return false
+	}
+	idx := f.Signature.Results().Len() - 1
+	leaves := returnLeaves(f, idx)
+	if len(leaves) == 0 {
+		return false
+	}
+	for _, rl := range leaves {
+		if !p.errNeverNil(rl.v, rl.block, rl.pred, depth+1) {
+			return false
+		}
+	}
+	return true
+}
+
+// checkStatusIsFailureWhereDataIsExpected (C20.Z6): a request whose success reply carries data (HANDLE, ATTRS, NAME,
+// EXTENDED_REPLY) can only be *refused* with a STATUS.  Where a client function returns the zero value of its result
+// together with the error decoded from a STATUS reply, that error must not be able to be nil: SSH_FX_OK in such a
+// reply would otherwise come out as (nil, nil) and the nil *FileStat / FileInfo is dereferenced by the callers
+// (MkdirAll, WriteTo, Seek, Walk).
+func checkStatusIsFailureWhereDataIsExpected(c *Ctx, rule string) {
+	p := c.P
+	n := 0
+	for _, fn := range p.LibFuncs() {
+		if outermost(fn) != fn || fn.Package() != p.Sftp || !isClientSide(fn) {
+			continue
+		}
+		res := fn.Signature.Results()
+		if res.Len() != 2 || res.At(1).Type().String() != "error" {
+			continue
+		}
+		// only value-returning requests: the first result is a pointer, interface or string
+		switch res.At(0).Type().Underlying().(type) {
+		case *types.Pointer, *types.Interface:
+		case *types.Basic:
+			if b := res.At(0).Type().Underlying().(*types.Basic); b.Kind() != types.String {
+				continue
+			}
+		default:
+			continue
+		}
+		ord := 0
+		eachInstr(fn, func(in ssa.Instruction) {
+			r, ok := in.(*ssa.Return)
+			if !ok || !isReturn(in) || len(r.Results) != 2 {
+				return
+			}
+			// zero value + an error derived from unmarshalStatus
+			zero := isNilConst(r.Results[0])
+			if s, ok := constString(r.Results[0]); ok && s == "" {
+				zero = true
+			}
+			if !zero {
+				return
+			}
+			fromStatus := false
+			var walk func(v ssa.Value, d int)
+			walk = func(v ssa.Value, d int) {
+				if d > 4 || v == nil {
+					return
+				}
+				if call, ok := v.(*ssa.Call); ok {
+					if calleeName(&call.Call) == "unmarshalStatus" {
+						fromStatus = true
+					}
+					for _, a := range call.Call.Args {
+						walk(a, d+1)
+					}
+					if f := call.Call.StaticCallee(); f != nil && inModule(f) && d < 2 {
+						eachInstr(f, func(y ssa.Instruction) {
+							if cc := callOf(y); cc != nil && calleeName(cc) == "unmarshalStatus" {
+								fromStatus = true
+							}
+						})
+					}
+				}
+			}
+			walk(r.Results[1], 0)
+			if !fromStatus {
+				return
+			}
+			n++
+			ord++
+			key := fmt.Sprintf("%s: STATUS in reply to a data request #%d", fnName(fn), ord)
+			c.check(p.errNeverNil(r.Results[1], r.Block(), nil, 0), rule, key, p.Pos(in.Pos()), "the decoded status cannot come out as a nil error",
+				"a STATUS reply with code SSH_FX_OK makes this request return its zero value with a nil error: callers dereference the nil result (Stat().Size(), MkdirAll, WriteTo, Seek(SeekEnd), Walk) and the client panics on 17 bytes from the server")
+		})
+	}
+	c.check(n >= 8, rule, "data requests that can be refused with a STATUS", "?", fmt.Sprintf("%d sites", n), fmt.Sprintf("only %d sites found", n))
 }
